@@ -4,6 +4,9 @@ import (
 	"fmt"
 	"go/ast"
 	"go/token"
+	"os"
+	"path/filepath"
+	"sort"
 	"strconv"
 	"strings"
 )
@@ -34,7 +37,7 @@ type relayWalker struct {
 	// record under construction
 	recLevel string
 	recAttrs []string
-	logAttrs [][]string // attrs of each emitted log event, in order
+	logAttrs [][]string      // attrs of each emitted log event, in order
 	asserted map[string]bool // variables bound by `x, ok := w.Origin.(T)` in an if header
 	// deferred function literals in order of appearance
 	deferred map[string]*ast.FuncLit
@@ -415,6 +418,68 @@ func relayStatusGuard(ev []string, i int) (int64, bool) {
 	return 0, false
 }
 
+// relayMethodSet lists the methods declared with receiver T or *T in the non-test Go files of a
+// package directory (store.go first, then the other files in name order), and T's fields.
+func relayMethodSet(dir, typ string) (methods, embedded, fields []string) {
+	entries, err := os.ReadDir(filepath.Join(repo, dir))
+	if err != nil {
+		die("read %s: %v", dir, err)
+	}
+	var files []string
+	for _, e := range entries {
+		n := e.Name()
+		if e.IsDir() || !strings.HasSuffix(n, ".go") || strings.HasSuffix(n, "_test.go") {
+			continue
+		}
+		files = append(files, n)
+	}
+	sort.SliceStable(files, func(i, j int) bool {
+		if (files[i] == "store.go") != (files[j] == "store.go") {
+			return files[i] == "store.go"
+		}
+		return files[i] < files[j]
+	})
+	for _, n := range files {
+		f := parseFile(filepath.Join(dir, n))
+		for _, d := range f.Decls {
+			switch x := d.(type) {
+			case *ast.FuncDecl:
+				if x.Recv == nil || len(x.Recv.List) != 1 {
+					continue
+				}
+				t := x.Recv.List[0].Type
+				if st, ok := t.(*ast.StarExpr); ok {
+					t = st.X
+				}
+				if id, ok := t.(*ast.Ident); ok && id.Name == typ {
+					methods = append(methods, x.Name.Name)
+				}
+			case *ast.GenDecl:
+				for _, sp := range x.Specs {
+					ts, ok := sp.(*ast.TypeSpec)
+					if !ok || ts.Name.Name != typ {
+						continue
+					}
+					st, ok := ts.Type.(*ast.StructType)
+					if !ok {
+						fields = append(fields, "not-a-struct:"+relayExprStr(ts.Type))
+						continue
+					}
+					for _, fl := range st.Fields.List {
+						if len(fl.Names) == 0 {
+							embedded = append(embedded, relayExprStr(fl.Type))
+						}
+						for _, nm := range fl.Names {
+							fields = append(fields, nm.Name+" "+relayExprStr(fl.Type))
+						}
+					}
+				}
+			}
+		}
+	}
+	return
+}
+
 func extractRelay() {
 	const src = "logger/httpd.go"
 	lf := parseFile("logger/level.go")
@@ -651,7 +716,21 @@ func extractRelay() {
 	l.printf("def storeMarkFlushedEvents : List String := %s\n", relayLeanStrList(mfEv))
 	l.printf("/-- every flush of the origin is preceded in its branch by `if Status == a { WriteHeader(b) }` -/\n")
 	l.printf("def storeFlushImplicit : Option (Nat × Nat) := %s\n", relayLeanOptPair(flushOK && nFlush > 0, flushA, flushB))
+
+	// the complete method set of ResponseWriter over all non-test files of package httpd, and its
+	// fields (an embedded field would promote further methods)
+	methods, embedded, fields := relayMethodSet("httpd", "ResponseWriter")
+	sorted := append([]string{}, methods...)
+	sort.Strings(sorted)
+	l.printf("\n/-- every method declared on `ResponseWriter` / `*ResponseWriter` in package httpd (source order,\n    and sorted), its struct fields, and its embedded fields -/\n")
+	l.printf("def storeRWMethods : List String := %s\n", relayLeanStrList(methods))
+	l.printf("def storeRWMethodsSorted : List String := %s\n", relayLeanStrList(sorted))
+	l.printf("def storeRWFields : List String := %s\n", relayLeanStrList(fields))
+	l.printf("def storeRWEmbedded : List String := %s\n", relayLeanStrList(embedded))
 	l.write()
+	facts["relay.storeRWMethods"] = methods
+	facts["relay.storeRWFields"] = fields
+	facts["relay.storeRWEmbedded"] = embedded
 
 	facts["relay.events"] = body
 	facts["relay.endEvents"] = endEv
